@@ -37,22 +37,46 @@ theorem C17_notfull_admitted (n : Nat) (pool : List Slot) (low : Bool) (h : ¬ (
 
 /-- An eviction removes exactly one pending low-priority entry, which is refused with the retry-later
     answer; the newcomer takes its slot, so the pool is back at its size and the victim is no longer
-    in it (it is never sequenced: rounds sequence exactly the pool's slots, `C07_leaf_per_admission`). -/
+    in it (it is never sequenced: rounds sequence exactly the pool's slots, `C07_leaf_per_admission`).
+    The only other eviction report possible while the eviction is outstanding is a late waiter of an entry evicted
+    EARLIER (no pending low-priority slot has its key): it changes nothing and the eviction stays outstanding. -/
 theorem C17_evict_exactly_one (s s' : Sys) (i eid key : Nat) (hev : (s.insts i).evictPending = true)
     (h : step s (.nackEvicted i eid key) = some s') :
-    (s'.insts i).evictPending = false ∧ (s'.insts i).pool.length + 1 = (s.insts i).pool.length ∧
-    ∃ k, List.findIdx? (fun sl => sl.key == key && sl.low) (s.insts i).pool.dropLast = some k := by
+    ((s'.insts i).evictPending = false ∧ (s'.insts i).pool.length + 1 = (s.insts i).pool.length ∧
+      ∃ k, List.findIdx? (fun sl => sl.key == key && sl.low) (s.insts i).pool.dropLast = some k) ∨
+    (s' = s ∧ (s.insts i).evictedEver.contains key = true ∧
+      (List.findIdx? (fun sl => sl.key == key && sl.low) (s.insts i).pool.dropLast = none ∨ (s.insts i).pool = [])) := by
   simp only [step, hev, if_true] at h
   split at h
   · rename_i nw k hlast hfind
     injection h with h; subst h
-    refine ⟨by simp [Sys.setInst, upd], ?_, k, hfind⟩
+    refine .inl ⟨by simp [Sys.setInst, upd], ?_, k, hfind⟩
     simp only [Sys.setInst, upd, if_true, List.length_set, List.length_dropLast]
     have hne : (s.insts i).pool ≠ [] := by
       intro he; rw [he] at hlast; simp at hlast
     have := List.length_pos_iff.2 hne
     omega
-  · cases h
+  · rename_i hno
+    split at h
+    · rename_i hc
+      injection h with h; subst h
+      refine .inr ⟨rfl, hc, ?_⟩
+      cases hl : (s.insts i).pool.getLast? with
+      | none => exact .inr (List.getLast?_eq_none_iff.1 hl)
+      | some nw =>
+        cases hf : List.findIdx? (fun sl => sl.key == key && sl.low) (s.insts i).pool.dropLast with
+        | none => exact .inl rfl
+        | some k => exact absurd hf (hno nw k hl)
+    · cases h
+
+/-- while an eviction is outstanding, the report that ends it is the one that removes the victim: the outstanding
+    flag is cleared by no other eviction report -/
+theorem C17_eviction_ends_by_removal (s s' : Sys) (i eid key : Nat) (hev : (s.insts i).evictPending = true)
+    (h : step s (.nackEvicted i eid key) = some s') (hdone : (s'.insts i).evictPending = false) :
+    (s'.insts i).pool.length + 1 = (s.insts i).pool.length := by
+  rcases C17_evict_exactly_one s s' i eid key hev h with h1 | ⟨h2, _, _⟩
+  · exact h1.2.1
+  · subst h2; rw [hev] at hdone; cases hdone
 
 /-- After a stop (fatal error) the instance starts no further round, performs no lock operation, and
     admits nothing: no further checkpoint is ever signed by it. -/
